@@ -366,3 +366,44 @@ def fam_engine(tier, base):
 prop("C31", "engine", "engine parameter sets of the shapes the cpumem plugin produces (bound, unbound, remapped; CPU limits 0..4 in 0.01 steps incl. 0.29/0.57/1.15; NUMA node or none; memory 0 / 4 MiB / 512 MiB) for both create and update; non-trivial = bound parameter set",
      ["the real engine/docker client (MakeClient) talks HTTP to an in-process fake Docker daemon that implements _ping, info, containers/create and containers/{id}/update and records the resource settings; node has 3 CPUs",
       "which cores an unbound workload may use is decided by the resource plugin (C32) and not judged here"])
+
+
+# =========================================================================== Rpc: C35, C36
+@family("rpc_auth")
+def fam_rpc_auth(tier, base):
+    r = verif.model_check("MC_Rpc", "MC_Rpc_auth.cfg")
+    inputs, trace = base + ".in.ndjson", base + ".trace.ndjson"
+    n = verif.emit_inputs(r, inputs)
+    b = verif.build_driver("pure")
+    verif.run_driver(b, "TestAuthReplay", env={"VERIF_INPUTS": inputs, "VERIF_TRACE": trace})
+    os.remove(inputs)
+    viols, tr = verif.validate_trace("Trace_Rpc", "Trace_Rpc.cfg", trace)
+    lines = verif.read_lines(trace)
+    acc = sum(1 for ln in lines if '"unary":"OK"' in ln)
+    return dict(trace=trace, viols=viols, states=r.distinct, transitions=r.generated, configs=["MC_Rpc_auth.cfg", "Trace_Rpc.cfg"],
+                traces={"*": len(lines)}, samples={"*": verif.samples_from(lines, 3)}, nontrivial={"C35": acc},
+                notes="%d (server user, server password, client user, client password) quadruples, each a real grpc.Server with the auth interceptors (as core.go installs them) on bufconn, one unary (Info) and one streaming (WatchServiceStatus) call; %d accepted" % (n, acc))
+
+
+@family("rpc_retry")
+def fam_rpc_retry(tier, base):
+    cfg = "MC_Rpc_retry_quick.cfg" if tier == "quick" else "MC_Rpc_retry_thorough.cfg"
+    r = verif.model_check("MC_Rpc", cfg)
+    inputs, trace = base + ".in.ndjson", base + ".trace.ndjson"
+    n = verif.emit_inputs(r, inputs)
+    b = verif.build_driver("pure")
+    verif.run_driver(b, "TestRetryReplay", env={"VERIF_INPUTS": inputs, "VERIF_TRACE": trace, "VERIF_PAR": 48}, timeout=7000)
+    os.remove(inputs)
+    viols, tr = verif.validate_trace("Trace_Rpc", "Trace_Rpc.cfg", trace)
+    lines = verif.read_lines(trace)
+    retried = sum(1 for ln in lines if '"serverStreams":1,' not in ln)
+    return dict(trace=trace, viols=viols, states=r.distinct, transitions=r.generated, configs=[cfg, "Trace_Rpc.cfg"],
+                traces={"*": len(lines)}, samples={"*": verif.samples_from(lines, 3)}, nontrivial={"C36": retried},
+                notes="%d scripts (stream lives x budget x cancellation point x method) against a scripted CoreRPC server on bufconn through the real NewStreamRetry interceptor; %d runs opened more than one server-side stream" % (n, retried))
+
+
+prop("C35", "rpc_auth", "all quadruples over users {admin, Admin, a-b_c.d, x} and passwords {'', pw, Pw, 'p w!'}; exhaustive; non-trivial = accepted call",
+     ["real gRPC client/server over an in-process bufconn connection; interceptors installed as core.go does", "usernames are gRPC metadata keys, which the transport lower-cases: user names are compared case-insensitively"])
+prop("C36", "rpc_retry", "server scripts of 1-3 stream lives (0-2 messages, ending in error or EOF), retry budget 0-2, cancellation after 0/1/2 messages or never, for the two watch methods and one non-watch streaming method; non-trivial = more than one server-side stream",
+     ["real exponential back-off (0.5 s initial): cases run in parallel", "the budget is read as Max retries after a first reopen (what the code does) or as Max reopen attempts; both are accepted",
+      "after cancellation the number of server-side streams is re-read 150 ms later"])
